@@ -168,6 +168,30 @@ class Trace(fitsim.Monitor):
         self.events.append((f"k{k}:terms", d))
 
 
+class ObservedOnly(fitsim.Monitor):
+    """"Observation counts and noise estimates use observed entries only", checked directly on the clean twin after every update
+    (the twin relation cannot see it: a term summed over unobserved entries of existing visits is the same in both twins)."""
+
+    def __init__(self, out, cfg):
+        from . import fitsim_c04
+
+        self.c04 = fitsim_c04.C04Monitor(out, cfg)
+        self.out = out
+        self.C = out["counters"]
+
+    def after_update(self, w, k, S, burn_in):
+        s = w.state
+        if "noise_std" in w.param_names() and "y_x_model" in S and "model_x_model" in S:
+            self.C["probe.noise_over_observed_entries_checked"] += 1
+            self.c04._noise(w, S, rm.f64(s["noise_std"]), f"k={k} kind={w.cfg['kind']} (clean twin)")
+        mask = rm.weights(s["y"]) > 0
+        for nm, exp in (("n_obs", mask.sum()), ("n_obs_per_ft", mask.sum(axis=(0, 1)))):
+            if nm in s.dag:
+                got = rm.f64(s[nm])
+                if got.reshape(-1).shape != np.reshape(exp, -1).shape or not np.array_equal(got.reshape(-1), np.reshape(exp, -1).astype(np.float64)):
+                    violation(self.out, "observed_only", f"observation_count:{nm}", f"k={k}: {nm} = {got.reshape(-1).tolist()} vs observed entries {np.reshape(exp, -1).tolist()}")
+
+
 def compare_traces(A, B, exact, out, C, where):
     """First difference between two twin histories (None if they agree)."""
     if len(A.events) != len(B.events):
@@ -252,7 +276,7 @@ def run_plan(plan: dict) -> dict:
     log.add("corrupt", plan["fault"], plan["poison"], plan["pad"], info["masked_entries"], info["padded_ages"])
     if plan["workload"] == "fit":
         ta, tb = Trace(v_real), Trace(v_real)
-        wa.monitors, wb.monitors = [ta], [tb]
+        wa.monitors, wb.monitors = [ta, ObservedOnly(out, cfg)], [tb]
         ea = wa.run()
         eb = wb.run()
         if ea is not None:
